@@ -97,8 +97,34 @@ def first_diff(a, b):
     return n
 
 
+def setup(chk):
+    """core.std_setup, except that a translator failure (a changed literal / shape in the parser source) is not reported
+    at once: the implementation oracle runs first, so that the first violation printed is a concrete failing document
+    when there is one; the translator failure is reported after it (or alone, as no-failing-input-found)."""
+    ok, out = core.regen(FAM)
+    pending = None
+    if not ok:
+        pending = ("translator failed: " + out.strip()[-400:], dict(kind="translator", output=out[-2000:]))
+    gate = core.proof_gate(chk.prop, FAM)
+    chk.cov["obligations"] = gate["obligations"]
+    chk.cov["discharged"] = gate["discharged"]
+    chk.cov["theorems"] = gate["theorems"]
+    chk.cov["axioms"] = gate["axioms"]
+    ok, log = core.build_runner(FAM)
+    if not ok and gate["ok"]:
+        gate["ok"] = False
+        gate["failed"] = "model extraction/runner build failed"
+        gate["error"] = log[-800:]
+    ok, hb, log = core.build_harness(release=False, fam=FAM)
+    if not ok:
+        chk.violation("harness does not build against the working tree: " + log[-300:],
+                      dict(kind="harness-build", output=log), no_input=True)
+        hb = None
+    return gate, hb, pending
+
+
 def run(chk, replay=None):
-    gate, hb = core.std_setup(chk, fam=FAM)
+    gate, hb, pending_translator = setup(chk)
     chk.cov["trusted_base"] = c16.TRUSTED
     chk.cov["checker_cmd"] = ("make -C fam/idl/coq Properties/C15.vo && coqc -Q coq PV -Q fam/idl/coq PVIdl Properties/C15.v "
                               "(Print Assumptions allowlist = empty, forbidden-vernacular grep)")
@@ -182,6 +208,8 @@ def run(chk, replay=None):
         chk.violation("C15 fails on the implementation: " + why, d)
         if len(seen) >= 3:
             break
+    if pending_translator:
+        chk.violation(pending_translator[0], pending_translator[1], no_input=True)
     if not failing:
         if mism:
             c, kind, o, m, prof = mism[0]
